@@ -7,6 +7,7 @@ import (
 	"errors"
 	"fmt"
 	"sync/atomic"
+	"time"
 
 	"github.com/hashicorp/eventlogger"
 
@@ -21,6 +22,7 @@ type cwNode struct {
 	closes   int64
 	onClose  func()
 	closeErr error
+	onType   func()
 }
 
 func (c *cwNode) Process(_ context.Context, e *eventlogger.Event) (*eventlogger.Event, error) {
@@ -31,7 +33,12 @@ func (c *cwNode) Process(_ context.Context, e *eventlogger.Event) (*eventlogger.
 	return e, nil
 }
 func (c *cwNode) Reopen() error              { return nil }
-func (c *cwNode) Type() eventlogger.NodeType { return c.typ }
+func (c *cwNode) Type() eventlogger.NodeType {
+	if c.onType != nil {
+		c.onType()
+	}
+	return c.typ
+}
 func (c *cwNode) Close(context.Context) error {
 	atomic.AddInt64(&c.closes, 1)
 	if c.onClose != nil {
@@ -206,6 +213,73 @@ func c05CloseWindow(run *rt.Run) {
 			if again == nil && rmErr == nil {
 				run.Violation("history-pattern:close-window:removed-node-accepted", "RemoveNode("+closer+") returned nil and the registration made while it was closing was refused, yet the same definition is accepted afterwards although nobody registered the node again", wit())
 			}
+		}
+	}
+}
+
+
+// c07RegistrationWindow: RegisterNode(f, new) arrives while RegisterPipeline(t0/p0 -> version 2, listing f) is
+// running node code (Type() of one of its nodes, called while the registration is validated). If the library lets
+// the node registration complete there, and a Send made after it returned is still processed by version 1, then
+// version 2 takes effect after the re-registration of f - and must use the new f. (On a library that keeps the
+// registry locked while it validates, RegisterNode simply waits; nothing is judged then.)
+func c07RegistrationWindow(run *rt.Run) {
+	ctx := context.Background()
+	F, M, K := eventlogger.NodeTypeFilter, eventlogger.NodeTypeFormatter, eventlogger.NodeTypeSink
+	for it := 0; it < 6 && !run.Stop(); it++ {
+		b, err := eventlogger.NewBroker()
+		if err != nil {
+			run.Inconclusive(err.Error())
+			return
+		}
+		a1, a2 := &cwNode{name: "a1", typ: F}, &cwNode{name: "a2", typ: F}
+		fOld, fNew := &cwNode{name: "f-old", typ: F}, &cwNode{name: "f-new", typ: F}
+		m, k1, k2 := &cwNode{name: "m", typ: M}, &cwNode{name: "k1", typ: K}, &cwNode{name: "k2", typ: K}
+		for id, n := range map[string]*cwNode{"a1": a1, "a2": a2, "f": fOld, "m": m, "k1": k1, "k2": k2} {
+			b.RegisterNode(eventlogger.NodeID(id), n)
+		}
+		if err := b.RegisterPipeline(eventlogger.Pipeline{EventType: "t0", PipelineID: "p0", NodeIDs: []eventlogger.NodeID{"a1", "f", "m", "k1"}}); err != nil {
+			run.Inconclusive(err.Error())
+			return
+		}
+		var fired int32
+		var bErr error
+		inWindow, send1v1 := false, false
+		armed := []*cwNode{k2, m, a2}[it%3]
+		armed.onType = func() {
+			// (Type() is called again while the Send below is processed: only the first call opens the window)
+			if !atomic.CompareAndSwapInt32(&fired, 0, 1) {
+				return
+			}
+			func() {
+				done := make(chan struct{})
+				go func() {
+					bErr = b.RegisterNode("f", fNew)
+					close(done)
+				}()
+				select {
+				case <-done:
+					inWindow = true
+					b.Send(ctx, "t0", "send-1")
+					send1v1 = atomic.LoadInt64(&a1.n) == 1 && atomic.LoadInt64(&a2.n) == 0
+				case <-time.After(20 * time.Millisecond):
+					// the registry is locked while the registration is validated: the node registration waits
+				}
+			}()
+		}
+		rpErr := b.RegisterPipeline(eventlogger.Pipeline{EventType: "t0", PipelineID: "p0", NodeIDs: []eventlogger.NodeID{"a2", "f", "m", "k2"}})
+		armed.onType = nil
+		run.Eval(fmt.Sprintf("regwindow|%s|%v", armed.name, inWindow))
+		if !inWindow || bErr != nil || rpErr != nil || !send1v1 {
+			run.Add("registration_window_not_open", 1)
+			continue
+		}
+		run.Add("registration_window_open", 1)
+		oldBefore, newBefore := atomic.LoadInt64(&fOld.n), atomic.LoadInt64(&fNew.n)
+		b.Send(ctx, "t0", "send-2")
+		if atomic.LoadInt64(&a2.n) == 1 && atomic.LoadInt64(&fOld.n) == oldBefore+1 && atomic.LoadInt64(&fNew.n) == newBefore {
+			run.Violation("history-pattern:registration-window:replaced-node-used", "RegisterNode(f, new) returned while RegisterPipeline(t0/p0, version 2) was validating; a Send after that was still processed by version 1, so version 2 took effect after the re-registration of f - yet version 2 delivers to the replaced node",
+				[]string{"node whose Type() opened the window: " + armed.name})
 		}
 	}
 }
